@@ -26,7 +26,7 @@
    This file contains statements only; every proof is [exact <lemma of C16Proofs.v>]. *)
 From Coq Require Import String.
 From Coq Require Import List Arith NArith Bool.
-From FileIO Require Import Pwrite FdTable Raw TiffFail SideBySide Hal Spec C16Proofs.
+From FileIO Require Import Pwrite FdTable Raw TiffFail SideBySide Hal Spec C16Proofs ErrnoProofs.
 Import ListNotations.
 Local Open Scope nat_scope.
 Local Open Scope list_scope.
@@ -101,11 +101,38 @@ Theorem C16_write_error_path :
 Proof. exact write_error_path. Qed.
 Print Assumptions C16_write_error_path.
 
+(* ---------------------------------------------------------------------------------------------------------------
+   C16_errno_irrelevant.  A failing pwrite reports one of EIO, ENOSPC, EAGAIN, EINTR, EBADF ([WErr e]).  file_write
+   (platform.c:66-86: `if (written < 0) CHECK_POSIX(errno);`) leaves its loop with return value 0 whatever the number
+   is: under two write scripts that fail the same calls with different error numbers ([errno_variant], [os_ev]) it
+   returns the same value, issues the same system calls and leaves the same files and descriptor table -- a failing
+   call is NEVER reissued, so no error number can make the loop spin. *)
+Theorem C16_errno_irrelevant_file_write :
+  forall o o' fid off buf, os_ev o o' ->
+    snd (file_write o fid off buf) = snd (file_write o' fid off buf) /\
+    os_ev (fst (file_write o fid off buf)) (fst (file_write o' fid off buf)).
+Proof. exact file_write_errno_irrelevant. Qed.
+Print Assumptions C16_errno_irrelevant_file_write.
+
+(* ... and therefore whole device lives: every kind, every history, every variant of the code and every fuel; the HAL
+   status and device state after each call, the system-call log, the descriptor table, the files and the number of
+   failed platform calls are the same (and one life diverges iff the other does). *)
+Theorem C16_errno_irrelevant :
+  forall fuel v k h env_fds cs ws ws', errno_variant ws ws' ->
+    match life fuel v k h (os_init env_fds cs ws), life fuel v k h (os_init env_fds cs ws') with
+    | Ret (rs, o1), Ret (rs', o1') =>
+        rs = rs' /\ trace o1 = trace o1' /\ tbl o1 = tbl o1' /\ fs o1 = fs o1' /\ nfail o1 = nfail o1'
+    | Diverges, Diverges => True
+    | _, _ => False
+    end.
+Proof. exact life_errno_irrelevant. Qed.
+Print Assumptions C16_errno_irrelevant.
+
 (* ===============================================================================================================
    Non-vacuity: reachable, non-trivial lives that meet the hypotheses (faults included). *)
 Definition pk (n : nat) (fr : list frame) : packet := mkPkt (repeat 1%N n) fr.
-Definition persistent_from (n : nat) (k : nat) : wresp := if k <? n then WFull else WErr.   (* disk full from call n on *)
-Definition once_at (n : nat) (k : nat) : wresp := if k =? n then WErr else WFull.           (* transient *)
+Definition persistent_from (n : nat) (k : nat) : wresp := if k <? n then WFull else WErr ENOSPC.   (* disk full from call n on *)
+Definition once_at (n : nat) (k : nat) : wresp := if k =? n then WErr EIO else WFull.           (* transient *)
 Definition os0 (ws : nat -> wresp) : os := os_init [0; 1; 2] (fun _ => COk) ws.
 
 Definition h_tiff : list op :=
@@ -157,6 +184,27 @@ Proof. eexists _, _. split; [vm_compute; reflexivity|]. vm_compute. auto. Qed.
 Example held_example :
   held 3 [EOpen "x.tif" (Some 3); EClose (Some 3) true; EOpen "x.tif" (Some 3); ELock 3 true].
 Proof. vm_compute. reflexivity. Qed.
+
+(* [errno_variant]: the disk-full script of tiff_persistent_failure and the same faults reported as EAGAIN (the case a
+   retry-on-EAGAIN loop would spin on) and as EINTR then EBADF; the three lives are identical *)
+Definition persistent_eagain_from (n : nat) (k : nat) : wresp := if k <? n then WFull else WErr EAGAIN.
+Definition persistent_mixed_from (n : nat) (k : nat) : wresp := if k <? n then WFull else if k =? n then WErr EINTR else WErr EBADF.
+Example errno_variant_example :
+  errno_variant (persistent_from 4) (persistent_eagain_from 4) /\
+  errno_variant (persistent_from 4) (persistent_mixed_from 4) /\
+  (exists rs o1 o2 o3,
+     life FUEL fixed KTiff h_tiff (os0 (persistent_from 4)) = Ret (rs, o1) /\
+     life FUEL fixed KTiff h_tiff (os0 (persistent_eagain_from 4)) = Ret (rs, o2) /\
+     life FUEL fixed KTiff h_tiff (os0 (persistent_mixed_from 4)) = Ret (rs, o3) /\
+     trace o1 = trace o2 /\ trace o2 = trace o3 /\ nfail o1 = 2 /\
+     nth 2 rs (true, Ok, Running) = (true, Err, Armed)).
+Proof.
+  split; [|split].
+  - intros k. unfold persistent_from, persistent_eagain_from. destruct (k <? 4); exact I.
+  - intros k. unfold persistent_from, persistent_mixed_from. destruct (k <? 4); [exact I|]. destruct (k =? 4); exact I.
+  - eexists _, _, _, _. split; [vm_compute; reflexivity|]. split; [vm_compute; reflexivity|].
+    split; [vm_compute; reflexivity|]. vm_compute. auto.
+Qed.
 
 (* ===============================================================================================================
    Sensitivity: with a repair switched off the model produces exactly the behaviour the theorems exclude.  These are
